@@ -1,7 +1,7 @@
 import AdfObdd.Parser2
 
 namespace ParserM
-/-! prototype 29: soundness of the formula parser model: whatever it accepts is a text of the
+/-! soundness of the formula parser model: whatever it accepts is a text of the
     documented syntax (so nothing else is accepted) -/
 
 theorem tagL_some : ∀ (k cs cs' : List Char), tagL k cs = some ((), cs') → cs = k ++ cs' := by
@@ -75,6 +75,66 @@ theorem orElse_cases {α : Type} (p q : Prs α) (cs : Inp) (x : α × Inp) (h : 
   cases hp : p cs with
   | some y => rw [hp] at h; left; exact h
   | none => rw [hp] at h; right; exact ⟨rfl, h⟩
+
+theorem takeUntilQ_some : ∀ (cs l r : List Char), takeUntilQ cs = some (l, r) →
+    '"' ∉ l ∧ cs = l ++ r ∧ r.head? = some '"' := by
+  intro cs
+  induction cs with
+  | nil => intro l r h; simp [takeUntilQ] at h
+  | cons c cs ih =>
+    intro l r h
+    simp only [takeUntilQ] at h
+    by_cases e : c = '"'
+    · rw [if_pos e] at h
+      simp only [Option.some.injEq, Prod.mk.injEq] at h
+      obtain ⟨rfl, rfl⟩ := h
+      exact ⟨by simp, by simp, by simp [e]⟩
+    · rw [if_neg e] at h
+      cases hq : takeUntilQ cs with
+      | none => rw [hq] at h; cases h
+      | some x =>
+        rw [hq] at h
+        simp only [Option.map_some, Option.some.injEq, Prod.mk.injEq] at h
+        obtain ⟨rfl, rfl⟩ := h
+        obtain ⟨a, b, c'⟩ := ih x.1 x.2 (by rw [hq])
+        refine ⟨?_, by rw [List.cons_append, ← b], c'⟩
+        intro hm
+        rcases List.mem_cons.mp hm with h1 | h1
+        · exact e h1.symm
+        · exact a h1
+
+theorem quotedP_some (cs l r : List Char) (h : quotedP cs = some (l, r)) :
+    '"' ∉ l ∧ cs = ['"'] ++ l ++ ['"'] ++ r := by
+  unfold quotedP at h
+  simp only [Option.bind] at h
+  cases h0 : tagL ['"'] cs with
+  | none => rw [h0] at h; cases h
+  | some a =>
+    rw [h0] at h; simp only at h
+    cases h1 : takeUntilQ a.2 with
+    | none => rw [h1] at h; cases h
+    | some x =>
+      rw [h1] at h; simp only at h
+      cases h2 : tagL ['"'] x.2 with
+      | none => rw [h2] at h; cases h
+      | some b =>
+        rw [h2] at h
+        simp only [Option.some.injEq, Prod.mk.injEq] at h
+        obtain ⟨rfl, rfl⟩ := h
+        have e0 := tagL_some _ _ _ (show tagL ['"'] cs = some ((), a.2) by rw [h0])
+        have e2 := tagL_some _ _ _ (show tagL ['"'] x.2 = some ((), b.2) by rw [h2])
+        obtain ⟨hq, e1, _⟩ := takeUntilQ_some a.2 x.1 x.2 (by rw [h1])
+        refine ⟨hq, ?_⟩
+        rw [e0, e1, e2]; simp
+
+/-- whatever `atomic` reads is one of the two spellings of the label it returns -/
+theorem atomic_some (cs l r : List Char) (h : atomic cs = some (l, r)) : ∃ s, cs = s ++ r ∧ DerL l s := by
+  unfold atomic at h
+  rcases orElse_cases _ _ _ _ h with hq | ⟨_, ha⟩
+  · obtain ⟨a, b⟩ := quotedP_some cs l r hq
+    exact ⟨['"'] ++ l ++ ['"'], b, DerL.quoted l a⟩
+  · obtain ⟨e, hne, hl⟩ := alnum1_some cs l r ha
+    exact ⟨l, e, DerL.alnum l hne hl⟩
 
 theorem constP_some (x : Char) (v : Fml) (cs : Inp) (f : Fml) (r : Inp) (h : constP x v cs = some (f, r)) :
     f = v ∧ cs = ['c', '(', x, ')'] ++ r := by
@@ -221,14 +281,14 @@ theorem formula_sound : ∀ (fuel : Nat) (cs : Inp) (f : Fml) (r : Inp), formula
       rw [e0, ea]; simp
     · -- atom
       unfold atomP at ha
-      cases hal : alnum1 cs with
+      cases hal : atomic cs with
       | none => rw [hal] at ha; cases ha
       | some x =>
         rw [hal] at ha
         simp only [Option.map_some, Option.some.injEq, Prod.mk.injEq] at ha
         obtain ⟨rfl, rfl⟩ := ha
-        obtain ⟨e, hne, hl⟩ := alnum1_some cs x.1 x.2 (by rw [hal])
-        exact ⟨x.1, e, DerF.atom x.1 hne hl⟩
+        obtain ⟨s, e, hl⟩ := atomic_some cs x.1 x.2 (by rw [hal])
+        exact ⟨s, e, DerF.atom x.1 s hl⟩
 #print axioms formula_sound
 
 end ParserM
